@@ -647,6 +647,21 @@ pub fn families(nmax: usize) -> Vec<(String, Vec<Op>)> {
             v.push(s("sink".into(), &[0], &[], 3, (0..n).map(nm).collect()));
             out.push((format!("fan-in-rw({})", n), v));
         }
+        if n <= 24 {
+            // n thread-local systems (beyond the inline capacity of the thread-local list), alone and mixed
+            let tl = |w: &[u8]| Op::Tl(SysSpec { name: String::new(), reads: vec![], writes: w.to_vec(), time: 3, deps: vec![] });
+            out.push((format!("thread-local({})", n), (0..n).map(|_| tl(&[])).collect()));
+            out.push((format!("thread-local-mixed({})", n), (0..n).flat_map(|i| vec![s(nm(i), &[], &[(i % 2) as u8], 3, vec![]), tl(&[0])]).collect()));
+            // a batch whose inner stage is n wide, and a batch holding n thread-local systems
+            out.push((
+                format!("batch-wide-inner({})", n),
+                vec![Op::Batch(BatchSpec { name: "b".into(), deps: vec![], ctrl: CtrlData::ReadA, times: 2, multi: false, fetch_data: false, inner: (0..n).map(|i| s(nm(i), &[], &[], 3, vec![])).collect() })],
+            ));
+            out.push((
+                format!("batch-of-thread-local({})", n),
+                vec![Op::Batch(BatchSpec { name: "b".into(), deps: vec![], ctrl: CtrlData::Unit, times: 1, multi: false, fetch_data: false, inner: (0..n).map(|_| tl(&[])).collect() })],
+            ));
+        }
         if n % 7 == 0 {
             // barrier every 7 systems, hostile names
             let mut v = Vec::new();
